@@ -164,6 +164,10 @@ pub enum Op {
     /// block_index argument = the true global chunk index (tracked by the harness)
     AddEncrypted(Payload, Spec),
     AddChunk(Payload, M),
+    /// `add_chunk(ChunkData::from_compressed(Encrypted, encrypt_chunk_with_key(data, spec, key, i), Some(len)))`:
+    /// a chunk the caller encrypted itself (i = the true global chunk index) and hands over pre-built
+    #[serde(alias = "AddPrebuilt")]
+    AddPrebuiltEncrypted(Payload, Spec),
 }
 
 #[derive(Debug, Clone, Serialize, Deserialize)]
@@ -336,8 +340,8 @@ pub fn interpret(p: &Program, keys: &KeyMap) -> (Built, Model) {
                 b = b.without_encryption();
                 enc = None;
             }
-            Op::AddData(pl) | Op::AddMixed(pl, _) | Op::AddEncrypted(pl, _) | Op::AddChunk(pl, _) => {
-                if matches!(op, Op::AddEncrypted(..)) && p.keys.is_empty() {
+            Op::AddData(pl) | Op::AddMixed(pl, _) | Op::AddEncrypted(pl, _) | Op::AddChunk(pl, _) | Op::AddPrebuiltEncrypted(pl, _) => {
+                if matches!(op, Op::AddEncrypted(..) | Op::AddPrebuiltEncrypted(..)) && p.keys.is_empty() {
                     continue; // hand-edited replay without a key pool: nothing to encrypt with
                 }
                 let len = pl.resolve_len(cs, cap);
@@ -377,6 +381,23 @@ pub fn interpret(p: &Program, keys: &KeyMap) -> (Built, Model) {
                             m.classes.push("add_encrypted_data:index>=1");
                         }
                         b.add_encrypted_data(&data, spec, key, ix)
+                    }
+                    Op::AddPrebuiltEncrypted(_, s) => {
+                        kind = CallKind::AddChunk;
+                        split = false;
+                        from_builder = false;
+                        chunk_enc = Some(s.cipher);
+                        let (spec, key) = real_spec(p, keys, s);
+                        let ix = m.chunks.len();
+                        m.classes.push("call:add_chunk(prebuilt-encrypted)");
+                        // what is encrypted is the inner block: mode byte 'N' + the data
+                        let mut inner = Vec::with_capacity(data.len() + 1);
+                        inner.push(b'N');
+                        inner.extend_from_slice(&data);
+                        match cascette_formats::blte::encrypt_chunk_with_key(&inner, spec, &key, ix) {
+                            Ok(body) => Ok(b.add_chunk(ChunkData::from_compressed(CompressionMode::Encrypted, body, Some(data.len())))),
+                            Err(e) => return (Built::Refused("refused:encrypt_chunk_with_key", e.to_string()), m),
+                        }
                     }
                     Op::AddChunk(_, mode) => {
                         kind = CallKind::AddChunk;
